@@ -83,3 +83,26 @@ T("C17", "stateless model checking of thread schedules on the real code under a 
 T("C08", "exhaustive enumeration of secret alphabets under a trace-equality monitor (basic blocks, short-circuit operands, index values, external callees)",
   "For each primitive the statement lists, and for the whole SignHashed / GenerateKey / DerivePublic paths, every secret of a structured alphabet (every window value at every window position, every nibble at every position, boundary values, 0x00/0xFF prefixes of every length, values agreeing with the modulus on prefixes of every length, first differing byte at every position per verdict class) is executed on a trace-instrumented copy of the Go sources; all secrets of a group must produce the identical sequence of block entries, short-circuit evaluations and index values, and the executed blocks may only call whitelisted constant-time code outside the module (math/bits, crypto/subtle, error constructors).",
   "Go-source granularity (compiler assumed not to introduce secret-dependent branches); only enumerated secrets; not a timing measurement. Three math/big calls of SignHashed that compute the published r from the public digest are a declared-public whitelist keyed by exact call text.", engine="gotrace")
+
+# additions after the third round of independently written breakages (DESIGN.md 8.6)
+_ADD = {
+ "C01": " Rejected first candidates (k=0, k>=n, r=0, r+k=n) are also followed by a candidate whose r has a leading zero byte.",
+ "C02": " Added dimensions: runs of m (3..1000; thorough 65536) identical or mixed rejected candidates, keys of every encoding length 1..31 and with leading zero bytes, an accepted r with a leading zero byte after every late rejection.",
+ "C03": " The result point [s]G+[t]P is steered (public key solved, no private key) to points with x1 in {0,1,n+j,n-1-j,p-1-j,2^255+j}; near-curve keys are presented with e solved by the implementation's own arithmetic wherever its decoder accepts them.",
+ "C04": " A second part drives one live object past 2^29 bytes (bit length 2^32; thorough: 2^30, 2^32) with Sum at eleven waypoints around each boundary against a streaming reference anchored on OpenSSL digests; an 'epoch' content family (content alternates across Resets) covers every history of <= 6 (thorough 8) operations.",
+ "C05": " Keys solved (key schedule run backwards) so that each round key is 0 / 0xffffffff, and windows of them; dst and src cut from one buffer at every legal pair of offsets; the public part also runs on the portable build.",
+ "C06": " Lengths 2^11..2^16 (thorough 2^20), additional data of 2^29-1, 2^29, 2^29+17 zero bytes from untouched anonymous memory (thorough: a 2^29-byte plaintext), and a second sealing of a third of the cases in the record layout (dst = additional data = header, payload in place).",
+ "C07": " Large base messages with sparse bit flips, every spare-capacity case opened again in the record layout, and three AEADs built from one Block in every order of five parameter sets.",
+ "C09": " A glue-trace part runs the block/short-circuit/index trace monitor on package sm4's Go sources around the kernels: all keys (incl. keys solved for zero / all-one round keys) and data patterns of a length class must give identical traces.",
+ "C10": " Arguments sharing one buffer in every way the AEAD contract allows (record layout, in place behind a prefix, additional data or nonce inside the prefix, additional data = input, adjacent arguments); in-place Open must leave the tag bytes of the caller's ciphertext unchanged.",
+ "C12": " Runs of up to 1000 rejected candidates; x||y of an on-curve point cut at every position; results of earlier calls compared with copies after later calls and then overwritten by the caller.",
+ "C13": " Every case is preceded by another user of the same buffers, other uses of the hash package (one-shot SumSM3, an abandoned hash object) and failing calls; thorough: messages of 2^29-32 bytes.",
+ "C14": " After every call the returned point is computed on in place and canary multiples are recomputed; every kind of failing call is followed by well-formed calls.",
+ "C15": " Representatives whose Z (as a value or in Montgomery form) has single bits / limb halves / one limb set; conversions are repeated after the caller overwrote their results.",
+ "C16": " Residues are also read as Montgomery forms; every binary result is negated afterwards (detects results that are not fully reduced); operations with both operands and the receiver being one object; decoders on m-1 and m +- 2^k and word masks.",
+ "C17": " Scenario S6: failing calls before the threads start, then concurrent signing / verification with values solved to have a short r and a short r+s.",
+ "C19": " Stalls of m (3..1000; thorough 100000) consecutive empty reads inside a draw, and runs of up to 1000 rejected candidates, each followed by data, an error or EOF.",
+ "C20": " DecomposeNAF call histories: every ordered pair of calls over seven lengths x three widths, the first call also with a too-short output slice (panics half way).",
+}
+for _k, _v in _ADD.items():
+    TEXT[_k]["level_text"] += _v
